@@ -345,7 +345,16 @@ class wave_function(ABC):
                 dn_proj = natorbs_up.T.conj() @ natorbs_dn
                 proj_orbs = jnp.linalg.qr(dn_proj, mode="complete")[0]
                 orbs = natorbs_up @ proj_orbs
-                return jnp.array([orbs + 0.0j] * n_walkers)
+                # the alpha determinant overlaps the alpha natural orbitals exactly; the beta one does not
+                det_overlap = np.linalg.det(
+                    orbs[:, : self.nelec[1]].T.conj() @ natorbs_dn
+                )
+                if np.abs(det_overlap) > 1e-3:
+                    return jnp.array([orbs + 0.0j] * n_walkers)
+                else:
+                    raise ValueError(
+                        "Cannot find a set of ROHF orbitals with good trial overlap."
+                    )
         else:
             return [
                 jnp.array([natorbs_up + 0.0j] * n_walkers),
